@@ -256,7 +256,7 @@ def unit_between_species(tier):
         bins = h['bins']
         dr, md = st['dr'], st['md']
         out.append(('bin edges k*dr', z3.ForAll([k], z3.Implies(z3.And(k >= 0, k < bins.shape[0]), bins.at(k) == z3.ToReal(k) * dr))))
-        out.append(('edges cover [0, max_dist]', z3.And(bins.shape[0] >= 1, z3.ToReal(bins.shape[0] - 1) * dr >= md - dr + 0 * dr)))
+        out.append(('edges cover [0, max_dist]: the last edge is not below the cut-off', z3.And(bins.shape[0] >= 2, z3.ToReal(bins.shape[0] - 1) * dr >= md)))
         x, y = res.get('x'), res.get('y')
         H = z3.Function('hist', z3.IntSort(), z3.IntSort())
         rho = z3.ToReal(fl[1]['N']) / st['lat'].get('volume')
@@ -311,9 +311,9 @@ def replay_rdf(inputs):
     rng = np.random.default_rng(seed)
     labels = inputs.get('labels') or [['A', 'B', 'A', 'B'], ['A', 'A', 'B', 'B'], ['B', 'A', 'C', 'A'], ['A', 'A', 'A', 'A']][seed % 4]
     traj, sites, info = hopping_system(seed, n_frames=inputs.get('n_frames', 25), n_diff=2, n_sites=len(labels), labels=labels,
-                                       n_frame_atoms=3, hop_prob=0.3)
+                                       n_frame_atoms=5, frame_symbols=('O', 'O', 'P'), hop_prob=0.3, interleave=bool(seed % 2))  # 2 Li, 4 O, 1 P: unequal counts
     bad = []
-    lat = traj.get_lattice()
+    lat = __import__('pymatgen.core', fromlist=['Lattice']).Lattice(__import__('numpy').array(traj.lattice, dtype=float).reshape(3, 3))  # the raw cell, not the library's get_lattice()
     max_dist, res = float(inputs.get('max_dist', 3.0)), float(inputs.get('resolution', 0.5))
     # ---- between species
     r = radial_distribution_between_species(trajectory=traj, specie_1='Li', specie_2='O', max_dist=max_dist, resolution=res)
@@ -326,11 +326,12 @@ def replay_rdf(inputs):
     if len(r.y) != len(exp) or not np.allclose(r.y, exp, rtol=1e-9, atol=1e-12) or not np.allclose(r.x, edges[:-1]):
         bad.append('radial_distribution_between_species differs from the brute-force normalised histogram')
     r2 = radial_distribution_between_species(trajectory=traj, specie_1='O', specie_2='Li', max_dist=max_dist, resolution=res)
-    raw1 = r.y * (rho * 4 / 3 * np.pi * ((edges[:-1] + res) ** 3 - edges[:-1] ** 3))
-    rho1 = c1.shape[1] / lat.volume
-    raw2 = r2.y * (rho1 * 4 / 3 * np.pi * ((edges[:-1] + res) ** 3 - edges[:-1] ** 3))
-    if not np.allclose(raw1, raw2, rtol=1e-9, atol=1e-9):
-        bad.append('raw pair counts are not symmetric in the two species')
+    if len(r.y) == len(exp) and len(r2.y) == len(exp):
+        raw1 = r.y * (rho * 4 / 3 * np.pi * ((edges[:-1] + res) ** 3 - edges[:-1] ** 3))
+        rho1 = c1.shape[1] / lat.volume
+        raw2 = r2.y * (rho1 * 4 / 3 * np.pi * ((edges[:-1] + res) ** 3 - edges[:-1] ** 3))
+        if not np.allclose(raw1, raw2, rtol=1e-9, atol=1e-9):
+            bad.append('raw pair counts are not symmetric in the two species')
     # ---- per state
     try:
         tr = traj.transitions_between_sites(sites, 'Li', site_radius=1.0)
